@@ -418,3 +418,57 @@ fn ka2_deflate_end_releases_once() {
     kani::cover!(!busy);
     core::mem::forget(state);
 }
+
+/// deflateBound's gzip wrapper length: whatever subset of the optional header fields the caller supplied, the bound grows by
+/// exactly the bytes deflate() writes for them — 2 + extra_len for an extra field, the string and its terminator for name and
+/// for comment (each on its own: a missing name does not hide the comment), 2 for the header CRC (C07, C20).
+#[kani::proof]
+#[kani::unwind(8)]
+#[kani::stub(core::fmt::write, stub_fmt_write)]
+#[kani::stub(core::panicking::panic_nounwind, stub_pn)]
+#[kani::stub(core::panicking::panic_nounwind_fmt, stub_pnf)]
+fn kd11_bound_counts_every_gzip_header_field() {
+    let mut w = [0u8; 2 << WB];
+    let mut p = [0u16; 1 << WB];
+    let mut h = [0u16; HASH_SIZE];
+    let mut pe = [MaybeUninit::new(0u8); 4 * LB];
+    let mut sy = [0u8; 3 * LB];
+    let level: i8 = kani::any();
+    kani::assume(level >= 0 && level <= 9);
+    let mut state = typed_state(&mut w, &mut p, &mut h, &mut pe, &mut sy, WB, LB, level, 2, Strategy::Default);
+    let n: usize = kani::any();
+    kani::assume(n <= 1 << 30);
+    let base = {
+        let mut stream = typed_stream(unsafe { &mut *(&mut state as *mut State) });
+        let b = bound(Some(&mut stream), n);
+        core::mem::forget(stream);
+        b
+    };
+    let mut name = *b"ab\0";
+    let mut comment = *b"wxyz\0";
+    let mut extra = [7u8; 6];
+    let (has_extra, has_name, has_comment, has_hcrc): (bool, bool, bool, bool) = (kani::any(), kani::any(), kani::any(), kani::any());
+    let mut gz = gz_header::default();
+    if has_extra {
+        gz.extra = extra.as_mut_ptr();
+        gz.extra_len = 6;
+    }
+    if has_name {
+        gz.name = name.as_mut_ptr();
+    }
+    if has_comment {
+        gz.comment = comment.as_mut_ptr();
+    }
+    let hcrc: i32 = kani::any();
+    gz.hcrc = if has_hcrc { hcrc } else { 0 };
+    kani::assume(!has_hcrc || hcrc != 0);
+    state.gzhead = Some(unsafe { &mut *(&mut gz as *mut gz_header) });
+    let mut stream = typed_stream(unsafe { &mut *(&mut state as *mut State) });
+    let with = bound(Some(&mut stream), n);
+    core::mem::forget(stream);
+    let fields = (if has_extra { 2 + 6 } else { 0 }) + (if has_name { 3 } else { 0 }) + (if has_comment { 5 } else { 0 }) + (if has_hcrc { 2 } else { 0 });
+    assert!(with == base + fields, "every supplied field is counted, independently of the others");
+    kani::cover!(!has_name && has_comment);
+    kani::cover!(has_extra && has_name && has_comment && has_hcrc && hcrc < 0);
+    core::mem::forget(state);
+}
